@@ -311,7 +311,8 @@ fn amount(rng: &mut Rng) -> String {
 
 fn gen_rune_id(rng: &mut Rng) -> RuneIdRef {
   match rng.below(12) {
-    0..=8 => RuneIdRef::Known(rng.below(16) as u32),
+    0..=4 => RuneIdRef::Held(rng.below(16) as u32),
+    5..=8 => RuneIdRef::Known(rng.below(16) as u32),
     7 => RuneIdRef::Zero,
     8 => RuneIdRef::Raw(rng.below(200), rng.below(6) as u32),
     _ => RuneIdRef::Raw(rng.next_u64(), rng.next_u64() as u32),
@@ -477,19 +478,25 @@ fn gen_runestone(rng: &mut Rng, f: &Features, wants_commit: &mut bool, n_out: u3
   let mut edicts = Vec::new();
   if pct(rng, f.edicts) {
     for _ in 0..1 + rng.usize(4) {
+      let output = match rng.below(12) {
+        0..=2 => None,
+        // out of range: cenotaph
+        3 => Some(n_out + 1 + rng.below(3) as u32),
+        _ => Some(rng.below(n_out.into()) as u32),
+      };
       edicts.push(EdictSpec {
         id: if etching.is_some() && rng.chance(1, 2) {
           RuneIdRef::Zero
         } else {
           gen_rune_id(rng)
         },
-        amount: amount(rng),
-        output: match rng.below(12) {
-          0..=2 => None,
-          // out of range: cenotaph
-          3 => Some(n_out + 1 + rng.below(3) as u32),
-          _ => Some(rng.below(n_out.into()) as u32),
+        // a split with amount zero divides the balance, remainder first
+        amount: if output.is_none() && rng.chance(1, 2) {
+          "0".into()
+        } else {
+          amount(rng)
         },
+        output,
       });
     }
   }
@@ -549,7 +556,11 @@ pub fn gen_tx(rng: &mut Rng, f: &Features) -> TxSpec {
         _ => 6,
       };
       if rng.chance(9, 10) {
-        sel = InputSel::Taproot { sel: k, min_conf };
+        sel = if rng.chance(1, 6) {
+          InputSel::TaprootShallow { sel: k, max_conf: 5 }
+        } else {
+          InputSel::Taproot { sel: k, min_conf }
+        };
       }
       witness = match witness {
         WitnessSpec::Envelopes(envs) if rng.chance(1, 2) => {
@@ -563,6 +574,15 @@ pub fn gen_tx(rng: &mut Rng, f: &Features) -> TxSpec {
           }
         }
       };
+    }
+    if wants_commit && i == 1 && rng.chance(1, 3) {
+      // a second input revealing the same commitment, of different maturity
+      sel = if rng.chance(1, 2) {
+        InputSel::Taproot { sel: k, min_conf: 6 }
+      } else {
+        InputSel::TaprootShallow { sel: k, max_conf: 5 }
+      };
+      witness = WitnessSpec::Commit(Vec::new());
     }
     if pct(rng, f.raw_garbage) {
       witness = match rng.below(2) {
